@@ -173,7 +173,7 @@ def emit (d : DS) (what ret : String) (id? : Option Nat) (log : Nat := 0) : Stri
       else "-"
     | none => "-"
   let ret := match d.err with | some m => s!"MODEL-ERROR:{m}" | none => ret
-  (s!"R {what} ret={ret} open=[{String.intercalate "," d.opens}] close=[{String.intercalate "," (sortStrs d.closes)}] dial=[{String.intercalate "," d.dials}] c={cl} left={lf} items={it} log={log} im={im}",
+  (s!"R {what} ret={ret} open=[{String.intercalate "," d.opens}] close=[{String.intercalate "," (sortStrs d.closes)}] dial=[{String.intercalate "," (sortStrs d.dials)}] c={cl} left={lf} items={it} log={log} im={im}",
    { d with opens := [], closes := [], dials := [], err := none })
 
 /-- the read part of an event on a stream conn: data is consumed; an error on an empty queue closes -/
